@@ -120,6 +120,27 @@ def run(rep, work, tier, seed, props, replay=None):
         if not (fr["iters"][0] == fr["iters"][1] == fr["iters"][2]):
             frep.append((fc, fr))
 
+    # (4) placeholders: histories WITH views, in-place updates and failing in-place updates (internal placeholder copies are made and
+    #     rolled back), ending in backward(); then the caller drops every name: with the cyclic GC disabled, no Tensor / Operation may survive
+    import c13
+    from c04 import replay_mirror
+    cb = []
+    if replay is not None and "census" in replay:
+        cb = [list(replay_mirror(replay["stmts"]))[-1][0]]
+    while replay is None and len(cb) < (1500 if tier == "thorough" else 300):
+        b = c13.gen_case(rng, mid_backward=rng.random() < 0.4)
+        if b is not None:
+            cb.append(b)
+    ccases = []
+    for b in cb:
+        c = b.case("end")
+        c["census"] = True
+        ccases.append(c)
+    cres = gh.run_impl_cases(ccases) if ccases else []
+    leaks = [(b, r) for b, r in zip(cb, cres) if r["leaked"] != {"tensors": 0, "ops": 0}]
+    for b, r in sorted(leaks, key=lambda x: len(x[0].stmts))[:5]:
+        rep.violation({"kind": "after backward() and dropping every reference, %d tensor(s) and %d operation(s) (internal placeholder copies included) are still alive with the cyclic GC disabled"
+                               % (r["leaked"]["tensors"], r["leaked"]["ops"]), "census": True, "stmts": b.stmts, "leaked": r["leaked"]})
     for i, j, msg in oracle[:5]:
         rep.violation({"kind": msg, "stmts": kb[i].stmts[:j + 1]})
     for fc, fr in frep[:5]:
@@ -135,13 +156,15 @@ def run(rep, work, tier, seed, props, replay=None):
                        "stmts": kb[k].stmts, "impl": kr[k], "n_disagreements": len(bad)})
     if not props["ok"]:
         rep.violation({"kind": "proof obligations of Props/C07.v no longer check", "broken": "Props/C07.v", "log": props["log"][-1500:]},
-                      no_input=not (oracle or lbad or bad or frep))
+                      no_input=not (oracle or lbad or bad or frep or leaks))
 
     def nontrivial(b, keep):
         return any(nm not in keep for nm in b.order) and any(s["op"] == "backward" for s in b.stmts)
     nt = set(progs.canonical(b) for b, k in zip(kb, kk) if nontrivial(b, k))
     rep.coverage.update({
-        "evaluations": len(kb) + len(fcases),
+        "evaluations": len(kb) + len(fcases) + len(cb),
+        "placeholder_census_histories": len(cb), "placeholder_census_leaks": len(leaks),
+        "placeholder_census_statements": gh.op_histogram(cb),
         "distinct_nontrivial": len(nt),
         "rule": "histories over shared leaves (2-3 forward/backward iterations, or free interleavings of backward/clear_graph/null_grad/new ops/del); the caller keeps the leaves and a random 15% of "
                 "the other tensors; non-trivial = at least one intermediate the caller does not keep and at least one backward; distinct = distinct statement list. Plus float variants repeated 3x.",
